@@ -762,6 +762,7 @@ impl Stream for WriteStream {
 
     fn run(&self, line: &str) -> String {
         if line.starts_with("write.big ") { return "oracle-only".into(); }
+        if line.starts_with("z64.rawcopy ") { return super::z64::Z64.run(line); }
         let (_, a) = parse_line(line);
         let calls: Vec<String> = a.get("calls").map(|c| c.split(';').map(|s| s.to_string()).collect()).unwrap_or_default();
         if calls.is_empty() { return "bad-op".into(); }
@@ -773,12 +774,13 @@ impl Stream for WriteStream {
     }
 
     fn nontrivial(&self, line: &str, resp: &str) -> bool {
-        line.starts_with("write.big ") || resp.contains("final=") && resp.matches(" ok").count() >= 2
+        line.starts_with("write.big ") || line.starts_with("z64.rawcopy ") || resp.contains("final=") && resp.matches(" ok").count() >= 2
     }
 
     fn oracle(&self, line: &str, resp: &str) -> Vec<OracleFailure> {
         let mut f = vec![];
         if line.starts_with("write.big ") { return oracle_append_big(line); }
+        if line.starts_with("z64.rawcopy ") { return super::z64::Z64.oracle(line, resp); }
         if resp.contains("panic") {
             f.push(OracleFailure { what: format!("a writer call panicked: {}", &resp[..resp.len().min(160)]) });
             return f;
@@ -1423,7 +1425,7 @@ fn oracle_rawcopy(calls: &[String], srcs: &[Vec<u8>]) -> Vec<OracleFailure> {
 
 fn gen_rawcopy(seed: u64, tier: &str) -> GenOut {
     let mut g = GenOut::default();
-    g.rule = "raw copies of unencrypted source entries (every method incl. ones the crate cannot decode, empty, descriptor sources from the independent builder, renamed or same name) interleaved with ordinary entries; copy as first / last / only entry. non-trivial = at least one raw copy succeeded and finish succeeded".into();
+    g.rule = "raw copies of unencrypted source entries (every method incl. ones the crate cannot decode, empty, descriptor sources from the independent builder, renamed or same name) interleaved with ordinary entries; copy as first / last / only entry; z64.rawcopy: sources whose compressed / uncompressed size is 2^32-2 .. 2^32+1 (a hole of a sparse source archive) copied into a sparse sink. non-trivial = at least one raw copy succeeded and finish succeeded".into();
     let n = if tier == "thorough" { 25_000 } else { 1_000 };
     for i in 0..n {
         let mut r = super::rng_for(seed, "rawcopy", i);
@@ -1449,5 +1451,8 @@ fn gen_rawcopy(seed: u64, tier: &str) -> GenOut {
         calls.push("fin".into());
         g.push("rawcopy", make_line(&calls, &srcs));
     }
+    // ZIP64-sized sources ("via sparse source"): compressed / uncompressed sizes of 2^32-2 .. 2^32+1 copied from a sparse
+    // source archive into a sparse sink (the z64 stream's op; deterministic, so not repeated for further seeds)
+    if tier != "quickx" { for (class, line) in super::z64::rc_big_lines(tier) { g.push(&class, line); } }
     g
 }
